@@ -29,6 +29,38 @@ assert os.path.realpath(quantity.__file__).startswith(
 
 OPS = {}
 
+# ---- line coverage of the implementation (sys.monitoring, no hooks) --------
+# Which lines of /repo/src/quantity the correspondence actually executed is
+# measured, not assumed: every location fires once and is then disabled, so
+# the cost is negligible.  Started after the imports, so only lines executed
+# by protocol operations count (not import-time declarations).
+COVER = set()
+_PAUSED = [False]     # True while a protocol operation imports a module
+_SRC = os.path.realpath(os.path.dirname(quantity.__file__)) + os.sep
+
+
+def start_cover():
+    mon = getattr(sys, "monitoring", None)
+    if mon is None or os.environ.get("VERIF_NO_COVER"):
+        return False
+    tool = mon.COVERAGE_ID
+    try:
+        mon.use_tool_id(tool, "verif-cover")
+    except ValueError:
+        return False
+
+    def on_line(code, line):
+        if _PAUSED[0]:
+            return None      # import-time execution is not correspondence
+        fn = code.co_filename
+        if fn.startswith(_SRC):
+            COVER.add((fn[len(_SRC):], line))
+        return mon.DISABLE
+
+    mon.register_callback(tool, mon.events.LINE, on_line)
+    mon.set_events(tool, mon.events.LINE)
+    return True
+
 
 def op(name):
     def deco(fn):
@@ -154,10 +186,13 @@ def run_case(case, timeout=None):
         os.close(r)
         try:
             signal.alarm(timeout)
+            base = set(COVER)
             out = exec_ops(case["ops"])
-            data = json.dumps(out).encode()
+            data = json.dumps({"out": out, "cov": sorted(COVER - base)}
+                              ).encode()
         except BaseException as exc:  # noqa: BLE001
-            data = json.dumps(["crash " + type(exc).__name__]).encode()
+            data = json.dumps({"out": ["crash " + type(exc).__name__],
+                               "cov": []}).encode()
         with os.fdopen(w, "wb") as f:
             f.write(data)
         os._exit(0)
@@ -169,7 +204,9 @@ def run_case(case, timeout=None):
         if (status & 0x7f) == signal.SIGALRM:
             raise CaseTimeout("case with %d operations exceeded %d s" % (len(case["ops"]), timeout))
         return ["crash signal %d" % (status & 0x7f)] * len(case["ops"])
-    out = json.loads(data)
+    payload = json.loads(data)
+    out = payload["out"]
+    COVER.update((f, n) for f, n in payload["cov"])
     if len(out) != len(case["ops"]):
         out = out + ["crash"] * (len(case["ops"]) - len(out))
     return out
@@ -629,7 +666,11 @@ def _q_round(st, a, n, d):
 
 @op("load_predefined")
 def _load_predefined(st):
-    import quantity.predefined  # noqa: F401
+    _PAUSED[0] = True
+    try:
+        import quantity.predefined  # noqa: F401
+    finally:
+        _PAUSED[0] = False
     return "ok failed=0"
 
 
@@ -720,7 +761,11 @@ import datetime as _dt  # noqa: E402
 
 
 def _money():
-    import quantity.money as qm
+    _PAUSED[0] = True
+    try:
+        import quantity.money as qm
+    finally:
+        _PAUSED[0] = False
     return qm
 
 
